@@ -17,6 +17,7 @@ structure V where
   nextSid : Nat := 0
   nextMsg : Nat := 0
   deadline : Option Nat := none      -- virtual time at which the start-sending timer fires
+  reAccepted : Bool := false         -- the wantlist just handed over found the previous one outstanding
 
 def field (toks : List String) (key : String) : Option String :=
   (toks.find? (·.startsWith key)).map fun t => (t.drop key.length).toString
@@ -114,7 +115,8 @@ def stepLine (v : V) (line : String) : V × Option String :=
   match toks with
   | "in" :: "send-wantlist" :: n :: _ =>
     let w := (n.drop 1).toString.toNat?.getD 0
-    ({ v with h := (step v.h (.sendWantlist w)).1 }, none)
+    ({ v with h := (step v.h (.sendWantlist w)).1,
+              reAccepted := v.h.client.ss == .requestReceived && !v.h.client.halted }, none)
   | ["in", "outbound-stream", "client"] =>
     ({ v with h := (step v.h (.outbound .client v.nextSid)).1, nextSid := v.nextSid + 1 }, none)
   | ["in", "outbound-stream", "server"] =>
@@ -130,7 +132,14 @@ def stepLine (v : V) (line : String) : V × Option String :=
   | "x" :: "accepted" :: t :: _ =>
     -- the wantlist just handed over was accepted at virtual time t: the timer is armed
     match (t.drop 2).toString.toNat? with
-    | some t => (if v.h.client.halted then v else { v with deadline := some (t + startSendingTimeoutMs) }, none)
+    | some t =>
+      if v.h.client.halted then (v, none) else
+      -- `SendingState::RequestReceived` carries an `Instant`: handed over while the previous wantlist is
+      -- outstanding (outside the environment's obligations, known finding F14) and the clock has
+      -- moved, the state differs and is reported again
+      let again := v.reAccepted && v.deadline != some (t + startSendingTimeoutMs)
+      let h := if again then { v.h with client := { v.h.client with queue := v.h.client.queue ++ [.state .requestReceived] } } else v.h
+      ({ v with h := h, deadline := some (t + startSendingTimeoutMs), reAccepted := false }, none)
     | none => (v, some "unreadable accepted line")
   | "x" :: "poll" :: rest =>
     let t := ((field rest "t=").bind (·.toNat?)).getD 0
